@@ -278,6 +278,7 @@ def finish(pid: str, tier: str, seed: int, t0: float, cov: Coverage | None,
         exit_code = 1
 
     broken_corr = []
+    failures = sorted(failures, key=lambda f: not f.oracle_rejects)
     for f in failures:
         hit = next((k for k in known if f.signature and k['key'] == f.signature), None)
         if hit is not None:
